@@ -74,7 +74,7 @@ var parseMu sync.Mutex
 
 var failKinds = []string{
 	"syntax", "unknown-directive", "bad-arg-timeouts", "bad-arg-gzip", "bad-arg-redir", "bad-arg-limits", "bad-arg-proxy-policy",
-	"missing-htpasswd", "malformed-htpasswd", "missing-cert", "missing-import", "missing-template-arg", "startup-callback-log", "startup-command",
+	"missing-htpasswd", "malformed-htpasswd", "htpasswd-user-missing", "missing-cert", "missing-import", "missing-template-arg", "startup-callback-log", "startup-command",
 	"listen-occupied", "listen-occupied-with-on-hook", "setup-fails-after-on-hook", "startup-fails-after-on-hook", "tls-plaintext-mix",
 }
 
@@ -110,6 +110,9 @@ func (e *env) invalid(kind string, n, ht int) string {
 		return addA("proxy /api 127.0.0.1:1 {\n  policy nosuchpolicy\n }")
 	case "missing-htpasswd":
 		return addA("basicauth /x u htpasswd=no-such-htpasswd")
+	case "htpasswd-user-missing":
+		// a well-formed htpasswd file that does not list the user named in the directive
+		return addA(fmt.Sprintf("basicauth /x nosuchuser htpasswd=../ht-%d.htpasswd", ht))
 	case "malformed-htpasswd":
 		// the file exists but its first line is malformed while this attempt runs
 		// (the child repairs it afterwards: see sharedHtpasswd)
@@ -485,7 +488,7 @@ func run(c *lib.Ctx) {
 	var jobs []job
 	// focused histories: failures of a RELOAD of a running instance (which
 	// inherits listeners), twice in a row, for the kinds that fail late
-	focusKinds := []string{"quic-udp-occupied", "listen-occupied", "listen-occupied-with-on-hook", "startup-callback-log", "startup-fails-after-on-hook", "tls-plaintext-mix", "malformed-htpasswd", "setup-fails-after-on-hook", "missing-import"}
+	focusKinds := []string{"htpasswd-user-missing", "quic-udp-occupied", "listen-occupied", "listen-occupied-with-on-hook", "startup-callback-log", "startup-fails-after-on-hook", "tls-plaintext-mix", "malformed-htpasswd", "setup-fails-after-on-hook", "missing-import"}
 	fid := 100000
 	for rep := 0; rep < c.Pick(2, 12); rep++ {
 		for _, op := range []string{"restart", "sigusr1"} {
